@@ -108,6 +108,7 @@ class State:
 
     def __init__(self):
         self.obj = {}
+        self.numkind = "dec"
 
 
 def exec_ops(ops):
@@ -151,3 +152,180 @@ def run_case(case, timeout=120):
     if len(out) != len(case["ops"]):
         out = out + ["crash"] * (len(case["ops"]) - len(out))
     return out
+
+
+# ---- terms (test elements) -------------------------------------------------
+
+from quantity.term import Term  # noqa: E402
+from numbers import Rational  # noqa: E402
+
+
+class TElem:
+    """Test element implementing the NonNumTermElem protocol with
+    generator-chosen sort key, group (class), scale and normalised
+    definition."""
+
+    def __init__(self, st, ident, key, group, scale, base, normdef):
+        self.st, self.ident, self.key, self.group = st, ident, key, group
+        self.scale, self.base, self._nd = scale, base, normdef
+
+    def is_base_elem(self):
+        return self.base
+
+    @property
+    def definition(self):
+        return self.normalized_definition
+
+    @property
+    def normalized_definition(self):
+        if self.base:
+            return Term(((self, 1),))
+        return Term(items_from(self.st, self._nd), reduce_items=False)
+
+    def norm_sort_key(self):
+        return self.key
+
+    def _get_factor(self, other):
+        if not isinstance(other, TElem) or other.group != self.group:
+            raise TypeError
+        if self.scale is None or other.scale is None:
+            return None
+        return to_dec_or_frac(self.scale / other.scale)
+
+    def __repr__(self):
+        return f"a{self.ident}"
+
+
+def items_from(st, s):
+    if s == "-":
+        return []
+    out = []
+    for part in s.split(";"):
+        el, _, e = part.rpartition("^")
+        if el.startswith("n:"):
+            fr = parse_rat(el[2:])
+            kind = st.numkind
+            if kind == "int" and fr.denominator == 1:
+                v = int(fr)
+            elif kind == "frac":
+                v = fr
+            else:
+                v = to_dec_or_frac(fr)
+            out.append((v, int(e)))
+        else:
+            out.append((st.obj["atom", int(el[2:])], int(e)))
+    return out
+
+
+def show_items(items):
+    if not items:
+        return "-"
+    out = []
+    for el, e in items:
+        if isinstance(el, TElem):
+            out.append(f"a:{el.ident}^{e}")
+        elif isinstance(el, float):
+            out.append(f"FLOAT:{el!r}^{e}")
+        elif isinstance(el, Rational):
+            out.append(f"n:{rat(el)}^{e}")
+        else:
+            out.append(f"?:{type(el).__name__}^{e}")
+    return ";".join(out)
+
+
+@op("numkind")
+def _numkind(st, kind):
+    st.numkind = kind
+    return "ok"
+
+
+@op("atom")
+def _atom(st, ident, key, group, scale, base, nd):
+    sc = None if scale == "-" else parse_rat(scale)
+    st.obj["atom", int(ident)] = TElem(st, int(ident), int(key), int(group),
+                                       sc, base == "1", nd)
+    return "ok"
+
+
+def _T(st, s):
+    return Term(items_from(st, s))
+
+
+@op("t_mk")
+def _t_mk(st, a):
+    return "ok " + show_items(_T(st, a).items)
+
+
+@op("t_norm")
+def _t_norm(st, a):
+    return "ok " + show_items(_T(st, a).normalized().items)
+
+
+@op("t_mul")
+def _t_mul(st, a, b):
+    return "ok " + show_items((_T(st, a) * _T(st, b)).items)
+
+
+@op("t_div")
+def _t_div(st, a, b):
+    return "ok " + show_items((_T(st, a) / _T(st, b)).items)
+
+
+def _scalar(st, q):
+    return items_from(st, f"n:{q}^1")[0][0]
+
+
+@op("t_scale")
+def _t_scale(st, q, a):
+    t = _T(st, a)
+    r1, r2 = _scalar(st, q) * t, t * _scalar(st, q)
+    assert show_items(r1.items) == show_items(r2.items)
+    return "ok " + show_items(r1.items)
+
+
+@op("t_divs")
+def _t_divs(st, a, q):
+    return "ok " + show_items((_T(st, a) / _scalar(st, q)).items)
+
+
+@op("t_rdivs")
+def _t_rdivs(st, q, a):
+    return "ok " + show_items((_scalar(st, q) / _T(st, a)).items)
+
+
+@op("t_pow")
+def _t_pow(st, a, n):
+    return "ok " + show_items((_T(st, a) ** int(n)).items)
+
+
+@op("t_recip")
+def _t_recip(st, a):
+    return "ok " + show_items(_T(st, a).reciprocal().items)
+
+
+def _b(x):
+    return "true" if x else "false"
+
+
+@op("t_eq")
+def _t_eq(st, a, b):
+    ta, tb = _T(st, a), _T(st, b)
+    eq, eq2 = ta == tb, tb == ta
+    assert eq == eq2, "Term.__eq__ not symmetric"
+    return f"ok eq={_b(eq)} hasheq={_b(hash(ta) == hash(tb))}"
+
+
+@op("t_numelem")
+def _t_numelem(st, a):
+    n = _T(st, a).num_elem
+    if n is None:
+        return "ok none"
+    if isinstance(n, float):
+        return f"ok FLOAT:{n!r}"
+    return "ok " + rat(n)
+
+
+@op("t_split")
+def _t_split(st, a):
+    n, r = _T(st, a).split()
+    return f"ok {rat(n)} {show_items(r.items)}"
